@@ -23,7 +23,7 @@ def known_regions(prop: str) -> dict[str, dict]:
         kf = json.loads(KF_FILE.read_text())
     except FileNotFoundError:
         return {}
-    return {f["region"]: f for f in kf.get("findings", []) if f["property"] == prop and f.get("engine") == "K"}
+    return {f["region"]: f for f in kf.get("findings", []) if (f["property"] == prop or prop in f.get("also", [])) and f.get("engine") == "K"}
 
 
 class KJob:
